@@ -111,8 +111,7 @@ def build(rng, it):
             comp = list(rng.choice(udrun.BROKEN_COMPS))
     else:
         comp = genpel.rbytes(rng, 2)
-        while comp in ([0x20, 0x00], [0xE5, 0x00], [0x2C, 0x00]) or comp in udrun.FIXTURE_COMPS.values() \
-                or comp in udrun.BROKEN_COMPS:
+        while comp in ([0x20, 0x00], [0xE5, 0x00], [0x2C, 0x00]) or comp in udrun.served_comps():
             comp = genpel.rbytes(rng, 2)
     kind = r['kind']
     sec = dict(kind=kind, ver=rng.randrange(256), sub=r['sub'], comp=comp)
